@@ -231,7 +231,7 @@ INFO = {
     'rule': 'one case = one event history; non-trivial = a task, an abort or a stale registration was observed',
     'functions': ['pl.farm.Hand._process', 'Hand._reg', 'Hand.notify', 'Hand.do', 'Hand.connectionLost', 'pl.farm.dispatch', 'pl.farm.notify_all', 'pl.farm.something_to_do',
                   'pl.farm.rerunid', 'pl.farm._put', 'pl.farm._cluster_sort', 'pl.farm._workers_sort', 'pl.message.make/send/dumps'],
-    'bounds': {'quick': 'graph task->regression, target T1/T2, histories of <=5 events from 14 kinds (incl. a periodic event becoming due); a directed family on a task->task chain (the dependent released for one target while the other waits, then 3 free events); directed 7-event histories (two workers, a unit completes with new data, then 2 free events)', 'thorough': 'same + task->analysis graph, histories of <=6 events'},
+    'bounds': {'quick': 'graph task->regression, target T1/T2, histories of <=5 events from 14 kinds (incl. a periodic event becoming due); a directed family on a task->task chain (the dependent released for one target while the other waits, then 3 free events); directed 7-event histories (two workers, a unit completes with new data, then 2 free events)', 'thorough': 'same + task->analysis graph (histories of <=5 events); directed families with 3 / 4 free events'},
     'assumptions': ['archiving_trigger() of the fake life-cycle machine makes the pipeline inactive until a FLIP event (the real machine leaves running); fake transports; db.next is a counter (the real shelve.next is covered by C08); context.fsm is a two-flag fake (active, waiting-on-crew false)',
                     'one register per worker connection (worker.cluster.execute), incarnations 0 and 1 alternating over the connections; replies arrive on fresh connections'],
     'outside': ['cloud (AWS) agency', 'longer histories', 'more than ~4 concurrent workers (bounded by history length)'],
@@ -240,7 +240,7 @@ INFO = {
 
 def obligations(tier):
     out = []
-    cfgs = [('G9', 5)] if tier == 'quick' else [('G9', 6), ('G3', 6)]
+    cfgs = [('G9', 5)] if tier == 'quick' else [('G9', 5), ('G3', 5)]  # k=6 over 14 event kinds is out of reach (millions of paths)
     n = len(EVENTS)
     for shape, k in cfgs:
         free = [f'e{i}' for i in range(2, k)]
